@@ -75,7 +75,7 @@ def check(prog, res, tier):
         return it.call_function(ifi, [it.new_file('in', tags=WIRE)], {})
     for p in Runs(prog, entry_s, res=res).inv:
         for e in p.events:
-            if e.kind == 'read' and e.func == ifi.short and e.data['size'] is not None:
+            if e.kind == 'read' and e.under(ifi.short) and e.data['size'] is not None:
                 c = p.store.canon(Lin.of(e.data['size']))
                 if c.is_const():
                     S = c.c if S is None else min(S, c.c)
@@ -174,7 +174,7 @@ def check(prog, res, tier):
 
     def first_len(p):
         for e in p.events:
-            if e.kind == 'ext-call' and e.data['callee'] == 'struct.unpack' and e.func == ifi.short:
+            if e.kind == 'ext-call' and e.data['callee'] == 'struct.unpack' and e.under(ifi.short):
                 r = e.data['result']
                 if isinstance(r, TupleV) and r.items and isinstance(r.items[0], IntV):
                     return r.items[0], e
@@ -277,9 +277,9 @@ def check(prog, res, tier):
                 if not (isinstance(cont, PyLit) and cont.path.endswith("['bit_config']")):
                     fails.append(definite(f'element numbers are looked up in {cont!r}, not the packaged bit configuration'))
                 if isinstance(item, SeqV) and len(item.segs) == 1 and isinstance(item.segs[0], Num) and item.segs[0].val is not None:
-                    idxs = [e.data.get('elem') for e in p.events if e.kind == 'loop-iter' and e.func == mfi.short]
+                    idxs = [e.data.get('elem') for e in p.events if e.kind == 'loop-iter' and e.under(mfi.short)]
                     idx = idxs[-1] if idxs else None
-                    fi_ev = [e for e in p.events if e.kind == 'for-iter' and e.func == mfi.short]
+                    fi_ev = [e for e in p.events if e.kind == 'for-iter' and e.under(mfi.short)]
                     itv = fi_ev[-1].data['iterable'] if fi_ev else None
                     if isinstance(idx, TupleV) and isinstance(idx.items[0], IntV) and isinstance(itv, IterV):
                         # position of the tested bit in the unpacked bit list = counter - start + slice offset
